@@ -11,7 +11,7 @@ open C00mc
 
 let sort_cmds (l : cmd list) = List.sort compare l
 
-let handle_variant (v : variant) (x : Sexp.t) : string =
+let handle_variant ?(second_repair = false) (v : variant) (x : Sexp.t) : string =
   let id, fs = case_fields x in
   let sy = sys_of_case fs in
   let nm = names_of_case fs in
@@ -41,6 +41,14 @@ let handle_variant (v : variant) (x : Sexp.t) : string =
     if impl_order <> model_order then
       diffs := Printf.sprintf "signal-order: impl %d entries, model %d entries" (List.length impl_order) (List.length model_order) :: !diffs;
     let model_blocks = script_blocks v en (n_of_int entry) (N.to_nat (n_of_int unrolls)) in
+    (* patches/0002: the init block of entry 0 in the order of Encoding.init_at2, compared as a LIST *)
+    let model_blocks = match model_blocks with
+      | _ :: rest when second_repair && entry = 0 -> init_at2 en :: rest
+      | l -> l in
+    (match model_blocks, impl_blocks with
+     | mb :: _, ib :: _ when second_repair && entry = 0 && mb <> ib && sort_cmds mb = sort_cmds ib ->
+         diffs := "block 0: same commands as init_at2, another order" :: !diffs
+     | _ -> ());
     if List.length model_blocks <> List.length impl_blocks then diffs := "number of blocks" :: !diffs
     else List.iteri (fun i (mb, ib) ->
         if sort_cmds mb <> sort_cmds ib then begin
@@ -61,9 +69,17 @@ let handle_variant (v : variant) (x : Sexp.t) : string =
      | None -> ());
     List.iter (fun (e, k, s) ->
         if s = None then set_fail "get-signal-at-panics" (Printf.sprintf "%s at step %d" (Sexp.to_string (sexp_of_expr e)) k)) signals;
-    let n_exec = ref 0 and n_skipped = ref 0 in
+    let n_exec = ref 0 and n_skipped = ref 0 and n_text = ref 0 in
+    (* values z3 computed from the REAL SMT-LIB text for the first run (declared constants pinned to the run) *)
+    let textvals = match Sexp.field_opt "textvals" fs with
+      | Some [Sexp.Atom "unsat"] -> `Unsat
+      | Some l when List.for_all (function Sexp.List [Sexp.Atom "v"; _; _] -> true | _ -> false) l && l <> [] ->
+          `Vals (List.map (function Sexp.List [_; n; v] -> (name n, num v) | _ -> assert false) l)
+      | _ -> `None in
+    let exec_no = ref 0 in
     if !fail = None then begin
       List.iter (fun ex ->
+          let this_exec = !exec_no in incr exec_no;
           let raws = steps_of_exec ex in
           match raws with
           | [] -> ()
@@ -90,7 +106,23 @@ let handle_variant (v : variant) (x : Sexp.t) : string =
                             else if List.exists (expr_eqb e) sy.s_inputs then "input"
                             else if List.exists (expr_eqb e) sy.s_constraints then "constraint" else "bad-state" in
                           set_fail ("unfaithful:" ^ kind) (Printf.sprintf "%s at step %d: script value differs from the execution" (Sexp.to_string (sexp_of_expr e)) k)
-                    | None -> ()) signals
+                    | None -> ()) signals;
+                (* the same comparison on the text level *)
+                if this_exec = 0 then begin
+                  match textvals with
+                  | `Unsat -> set_fail "text:pinned-run-unsatisfiable" "z3: the script with the declared constants pinned to a run of the system is unsat"
+                  | `Vals vs ->
+                      List.iter (fun (n, v) ->
+                          match List.assoc_opt n tab with
+                          | Some (e, k) ->
+                              incr n_text;
+                              if ebv (at k) e <> v then
+                                set_fail "unfaithful-text" (Printf.sprintf "%s = %s at step %d: z3 evaluates the SMT-LIB text to another value than the execution (the abstract commands are %s)"
+                                   (ocamlstr n) (Sexp.to_string (sexp_of_expr e)) k
+                                   (if !fail = None then "faithful" else "unfaithful too"))
+                          | None -> ()) vs
+                  | `None -> ()
+                end
               end) (Sexp.field "execs" fs)
     end;
     (* the solvers: a third, independent check *)
@@ -126,8 +158,9 @@ let handle_variant (v : variant) (x : Sexp.t) : string =
             else if known_class_b en (n_of_int entry) then "known-class(but-accepted)"
             else "in-theorem-domain" in
           Registry.result ~id ~status:"ok" ~key:(Printf.sprintf "entry%s:%s" (if entry = 0 then "0" else ">0") domain)
-            ~detail:(Printf.sprintf "execs=%d skipped=%d exact-order=%b %s" !n_exec !n_skipped exact_order solver_note) ()
+            ~detail:(Printf.sprintf "execs=%d skipped=%d text-values=%d exact-order=%b %s" !n_exec !n_skipped !n_text exact_order solver_note) ()
   end
 
 let () = Registry.register "C04" (handle_variant Current)
-let () = Registry.register "C04F" (handle_variant Fixed)
+let () = Registry.register "C04F" (handle_variant ~second_repair:C00mc.second_repair Fixed)
+let () = Registry.register "C04G" (handle_variant ~second_repair:true Fixed)
